@@ -259,7 +259,14 @@ func (r *Rollback) performRollback(currentRelease, targetRelease *release.Releas
 	for _, rel := range deployed {
 		slog.Debug("superseding previous deployment", "version", rel.Version)
 		rel.Info.Status = release.StatusSuperseded
-		r.cfg.recordRelease(rel)
+		if err := r.cfg.Releases.Update(rel); err != nil {
+			// Do not mark the new revision deployed while a previous one could not be
+			// recorded as superseded: that would leave two deployed revisions.
+			rel.Info.Status = release.StatusDeployed
+			targetRelease.SetStatus(release.StatusFailed, fmt.Sprintf("Rollback %q failed: %s", targetRelease.Name, err.Error()))
+			r.cfg.recordRelease(targetRelease)
+			return targetRelease, err
+		}
 	}
 
 	targetRelease.Info.Status = release.StatusDeployed
